@@ -169,6 +169,72 @@ CHECKS['C05'] = {
     'level_note': 'Trusted: gcc/clang+ASan, the allocator shim. Not covered: more than N nodes; adjacent swaps (excluded by the property).',
 }
 
+
+def str_job(mode, name, n, letters=4, san='', faults=0, deadline=100):
+    args = ['--mode', mode, '--n', n, '--letters', letters, '--faults', faults, '--deadline', deadline]
+    return {'name': name, 'build_name': 'str%s' % ('-asan' if san else ''), 'harness': ['harness/str.cpp'],
+            'repo_srcs': ['src/str.c', 'src/utf.c', 'src/a.c'], 'san': san, 'args': args}
+
+
+def c06_jobs(tier):
+    if tier == 'quick':
+        return [str_job('rich', 'str-rich-n6-4letters', 6), str_job('rich', 'str-rich-n9-2letters', 9, 2), str_job('length', 'str-length-n40', 40),
+                str_job('cmp', 'str-cmp-len4', 4), str_job('rich', 'str-rich-asan-n4', 4, san='asan'), str_job('rich', 'str-rich-asan-n9-2letters', 9, 2, san='asan'),
+                str_job('length', 'str-length-asan-n40', 40, san='asan')]
+    D = 2400
+    return [str_job('rich', 'str-rich-n8-4letters', 8, deadline=D), str_job('rich', 'str-rich-n10-3letters', 10, 3, deadline=D), str_job('rich', 'str-rich-n17-2letters', 17, 2, deadline=D),
+            str_job('length', 'str-length-n72', 72, deadline=D), str_job('cmp', 'str-cmp-len5', 5, deadline=D),
+            str_job('rich', 'str-rich-asan-n6', 6, san='asan', deadline=D), str_job('rich', 'str-rich-asan-n10-2letters', 10, 2, san='asan', deadline=D),
+            str_job('length', 'str-length-asan-n72', 72, san='asan', deadline=D)]
+
+
+CHECKS['C06'] = {
+    'title': 'dynamic string equals an abstract byte string and stays NUL-terminated', 'level': 'model_checking', 'jobs': c06_jobs,
+    'rule': ('explicit-state BFS to a fixpoint over the real src/str.c: a state is (capacity, terminated?, content bytes). Two explorations: content-rich (bytes from {a, space, NUL, 0xE9}, '
+             'length <= N) with catc/catc_ of every letter, catn/catn_/cats/cats_/cat/cat_ of every block of length 0..2, getc/getc_, getn/getn_ for k in {0,1,2,num,num+1} with and without buffer, '
+             'rtrim/ltrim/trim and raw forms with four trim sets (isspace default, "a", " \\0", "\\xE9a"), setn for every k in 0..mem+1, setn_, setm, exit (ownership hand-over), swap, a_utf_catc at every '
+             'UTF-8 length boundary, a_utf_len, catf with six formats; and length-focused (single letter, length <= N) with appends of every length 0..17 and catf("%s") of every argument length 0..17 so that the '
+             'formatted text under-fills, exactly fills and over-fills the spare room at every fill level (one-pass and two-pass vsnprintf paths). Content, length<=capacity, NUL placement of the terminating '
+             'variants, return values and the allocator ledger are checked after every call; comparison functions are checked on all ordered pairs of strings of length <= 4 (5 thorough). '
+             'Operations whose result leaves the alphabet (code points, formatted numbers) are executed and checked from every state but their successors are not expanded.'),
+    'assumptions': ['host vsnprintf is the definition of what the C formatter produces', 'the raw setters a_str_setn_/a_str_setm_ are driven within their documented preconditions (k <= capacity); a_str_setm_ below the length is a capacity operation the statement does not list',
+                    'isspace is evaluated in the "C" locale'],
+    'design_ref': '§4.C06', 'technique': 'explicit-state BFS to a fixpoint over the real str.c against an abstract byte string, canary allocator + ASan for the +1/+2 terminator reservations, API-replay conformance of every state',
+    'level_text': 'Every string operation is executed from every reachable (capacity, content) state up to the length bound (6-9 bytes content-rich and 40 bytes length-focused in quick; 8-17 and 72 in thorough), across every 8-byte reallocation boundary, and compared with an abstract byte string including terminator placement and formatted-append return values; all pairs of short strings for the comparison functions.',
+    'level_note': 'Trusted: gcc/clang+ASan, the allocator shim, host libc formatter. Not covered: content longer than the bound; formats other than the six listed.',
+}
+
+
+def c07_jobs(tier):
+    D = 100 if tier == 'quick' else 2400
+    q = tier == 'quick'
+    return [seq_job('vec', 'oom-vec-siz1-3', 4 if q else 6, 1, 3, faults=1, deadline=D),
+            seq_job('vec', 'oom-vec-siz12', 3 if q else 5, 12, faults=1, deadline=D),
+            seq_job('vec', 'oom-vec-growth-8-16', 9 if q else 10, 2, keys=1 if q else 2, memcap=16, faults=1, deadline=D),
+            seq_job('buf', 'oom-buf-siz1-3', 3 if q else 5, 1, 3, mem0=3 if q else 5, memcap=5 if q else 7, faults=1, deadline=D),
+            lists_job('que', 'oom-que-siz4-9', 4 if q else 6, 4, 9, 2, faults=1, deadline=D),
+            lists_job('que', 'oom-que-pool-growth', 11 if q else 18, 3, 7, 1, faults=1, deadline=D),
+            str_job('rich', 'oom-str-rich', 4 if q else 6, 4, faults=1, deadline=D),
+            str_job('length', 'oom-str-length', 40 if q else 72, faults=1, deadline=D),
+            seq_job('vec', 'oom-vec-asan', 3 if q else 4, 3, 1, san='asan', faults=1, deadline=D),
+            lists_job('que', 'oom-que-asan', 4 if q else 5, 4, 9, 2, san='asan', faults=1, deadline=D),
+            str_job('rich', 'oom-str-asan', 3 if q else 5, 4, san='asan', faults=1, deadline=D)]
+
+
+CHECKS['C07'] = {
+    'title': 'allocation failure never corrupts a container or leaks memory', 'level': 'fault_enumeration', 'jobs': c07_jobs, 'engine': 'xs',
+    'rule': ('allocator fault enumeration layered on the explicit-state explorations of vector, buffer, queue and string: for EVERY reachable state, EVERY operation of the menu that allocates, '
+             'EVERY allocation request index k made by the library during that operation, and both fault modes (request k only; request k and all later ones) the real operation is executed with the fault injected through the public a_alloc seam. '
+             'Required: failure reported through the return value (null / A_OMEMORY / ~0 / 0 for catf), container still holds exactly its previous contents and all invariants, the same operation retried with a healthy allocator succeeds and reaches '
+             'the fault-free successor, and after destroying the container the ledger is empty with no double free. Because a failed operation must be a self-loop on the state, the single-step check from every reachable state covers histories with any number of faults at any positions. '
+             'evaluations = transitions executed (fault-free + faulted); distinct_nontrivial = distinct reachable container states from which faults were injected; fault_runs = faulted executions.'),
+    'assumptions': ['a_alloc is the only way the library obtains memory (grep confirms: no direct malloc in src/{vec,buf,que,str}.c)', 'a grow request that succeeds always moves the block (shim policy) so stale pointers are visible',
+                    'for a_str_catv the bytes after the content are not required to be preserved by a failed call (the first formatting pass legitimately writes into spare room)'],
+    'design_ref': '§4.C07', 'technique': 'exhaustive allocator-fault enumeration (every request position x single/from-here-on) from every reachable state of bounded explicit-state explorations of the real containers',
+    'level_text': 'Every allocation request of every allocating operation, from every reachable state of the bounded explorations of vector, buffer, queue and string, is made to fail (singly and from that point on); the failed operation must report failure, be a self-loop on the abstract state, be retryable, and leave an empty ledger after destruction. Inductive over histories: any number of faults at any positions.',
+    'level_note': 'Trusted: the allocator shim and its ledger. Not covered: states beyond the size bounds of the underlying explorations.',
+}
+
 # ---------------------------------------------------------------- manifest texts
 CHECKS['C01'].update({
     'design_ref': '§4.C01', 'technique': 'explicit-state BFS to a fixpoint over the real src/avl.c (size-bounded, unbounded history length), lock-step reference set, API-replay conformance of every state',
